@@ -611,7 +611,19 @@ func sanitize(s string) string {
 	return r.Replace(s)
 }
 
+// replayFile replays a trace in a fresh process. A library that consults
+// runtime-managed caches (sync.Pool) is not fully under the simulator's
+// control, so a replay that shows nothing is retried a few times.
 func replayFile(bin, path string) *violation {
+	for attempt := 0; attempt < 3; attempt++ {
+		if v := replayOnce(bin, path); v != nil {
+			return v
+		}
+	}
+	return nil
+}
+
+func replayOnce(bin, path string) *violation {
 	cmd := exec.Command(bin, "replay", "-trace", path, "-known", filepath.Join(verifDir, "known_findings.txt"))
 	out, _ := cmd.Output()
 	var rr runResult
